@@ -49,24 +49,24 @@ def generate(rng, tier):
             yield Case(["ck.slice64\t%d\t%s" % (s64, hx(b))], {"k": "slice64", "start": s64, "data": hx(b)})
             yield Case(["ck.slice32\t%d\t%s" % (s32, hx(b))], {"k": "slice32", "start": s32, "data": hx(b)})
             # Sum16BitWords over the whole and over an even split; the Lean Spec (RFC 1071) next to it
-            yield Case(["ck.sum16\t%s" % hx(b), "spec.ck\t%s" % hx(b)], {"k": "sum16", "data": hx(b)})
+            yield Case(["ck.sum16\t%s" % hx(b), "spec.ck.rfc\t%s" % hx(b)], {"k": "sum16", "data": hx(b)})
     # all even splits (and 3-way splits) of some inputs
     nsplit = 40 if tier == "quick" else 400
     for _ in range(nsplit):
         n = rng.randrange(0, 64)
         b = rbytes(rng, n)
         for k in range(0, n + 1, 2):
-            yield Case(["ck.sum16\t%s\t%s" % (hx(b[:k]), hx(b[k:])), "spec.ck\t%s" % hx(b)], {"k": "sum16", "data": hx(b)})
+            yield Case(["ck.sum16\t%s\t%s" % (hx(b[:k]), hx(b[k:])), "spec.ck.rfc\t%s" % hx(b)], {"k": "sum16", "data": hx(b)})
         if n >= 4:
             k1 = rng.randrange(0, n // 2) * 2
             k2 = k1 + rng.randrange(0, (n - k1) // 2 + 1) * 2
-            yield Case(["ck.sum16\t%s\t%s\t%s" % (hx(b[:k1]), hx(b[k1:k2]), hx(b[k2:])), "spec.ck\t%s" % hx(b)], {"k": "sum16", "data": hx(b)})
+            yield Case(["ck.sum16\t%s\t%s\t%s" % (hx(b[:k1]), hx(b[k1:k2]), hx(b[k2:])), "spec.ck.rfc\t%s" % hx(b)], {"k": "sum16", "data": hx(b)})
     # long inputs
     nlong = 200 if tier == "quick" else 5000
     for _ in range(nlong):
         n = rng.choice([rng.randrange(64, 2000), rng.randrange(1000, 70000) if tier == "thorough" else rng.randrange(64, 4000)])
         b = rbytes(rng, n)
-        yield Case(["ck.sum16\t%s" % hx(b), "spec.ck\t%s" % hx(b)], {"k": "sum16", "data": hx(b)})
+        yield Case(["ck.sum16\t%s" % hx(b), "spec.ck.rfc\t%s" % hx(b)], {"k": "sum16", "data": hx(b)})
         s64 = rng.choice(starts64)
         yield Case(["ck.slice64\t%d\t%s" % (s64, hx(b))], {"k": "slice64", "start": s64, "data": hx(b)})
         s32 = rng.choice(starts32)
